@@ -207,6 +207,7 @@ func runC09(c *eng.Ctx) {
 	runC09NestedCreate(c, next)
 	runC09Join(c, next)
 	runRootHandle(c, "C09", next)
+	runAgedProcess(c, "C09", next)
 }
 
 func runC09Stress(c *eng.Ctx, next func() (int, bool)) {
